@@ -51,6 +51,8 @@ type FuncContract struct {
 	Results  []string
 	Verify   bool // generate obligations for this function
 	Notes    []string
+	Opaque   []string
+	Use      []string
 }
 
 type SpecParam struct{ Name, Type string }
@@ -64,6 +66,7 @@ type SpecFunc struct {
 	Rec    bool
 	Pkg    string
 	Ghost  bool
+	Macro  bool
 }
 
 type Axiom struct {
@@ -246,6 +249,30 @@ func (db *ContractDB) loadFile(file, pkgPath string) error {
 			if cur.Assumed {
 				db.trusted = append(db.trusted, "assumed contract: "+key)
 			}
+		case word == "macro":
+			// macro name(a, b) = expr   (expanded in the environment of its use; may read the heap)
+			op := strings.Index(rest, "(")
+			eq := strings.Index(rest, " = ")
+			if op < 0 || eq < 0 {
+				return fail("macro name(params) = expr")
+			}
+			cl := matchParen(rest, op)
+			sf := &SpecFunc{Pkg: pkgPath, Src: rest, Macro: true, Name: strings.TrimSpace(rest[:op])}
+			for _, p := range strings.Split(rest[op+1:cl], ",") {
+				if p = strings.TrimSpace(p); p != "" {
+					sf.Params = append(sf.Params, SpecParam{Name: p})
+				}
+			}
+			e, err := parseExpr(rest[eq+3:])
+			if err != nil {
+				return fail("%v", err)
+			}
+			sf.Body = e
+			if old, dup := db.specs[sf.Name]; dup && old.Src != sf.Src {
+				return fail("macro %s declared twice with different text", sf.Name)
+			}
+			db.specs[sf.Name] = sf
+			cur = nil
 		case word == "spec" || word == "ghost":
 			sf := &SpecFunc{Pkg: pkgPath, Src: rest, Ghost: word == "ghost"}
 			if strings.HasPrefix(rest, "rec ") {
@@ -342,6 +369,10 @@ func (db *ContractDB) loadFile(file, pkgPath string) error {
 				}
 			case "safety":
 				cur.Safety = append(cur.Safety, strings.Fields(rest)...)
+			case "opaque":
+				cur.Opaque = append(cur.Opaque, strings.Fields(strings.ReplaceAll(rest, ",", " "))...)
+			case "use":
+				cur.Use = append(cur.Use, strings.Fields(strings.ReplaceAll(rest, ",", " "))...)
 			case "inline":
 				cur.Inline = true
 			case "assumed":
